@@ -221,7 +221,7 @@ def run(ctx):
     distinct = {(s["maxLate"], s["delay"], s["markers"], s["mode"], s["sig"], min(s["startBack"], 40)) for s in sess}
     ctx.assumptions.append("completeness is judged under the frame-level premise of SampleBuilderOps.CompletenessPremise")
     return vlib.finish(
-        ctx, "exploration",
+        ctx, "model_checking",
         rule="TLC: normative machine and transcribed ring-buffer algorithm (as is / repaired) checked exhaustively on "
              "modulus 16 for streams of <= %d packets; sessions replayed = TLC's counterexamples of the as-is model + "
              "seeded TLC -simulate runs of the session generator (frames of 1-3 packets, <= 60 packets, loss, "
